@@ -14,7 +14,7 @@ EVIDENCE = dict(
     rule="(1) every token stream of <= 4 (thorough 5) tokens over {name,int,<<,>>,[,],lone '>'} from ParserLoop.tla through "
          "core.Parser / contentstream.Parser; (2) every reference graph on 3 nodes from GraphWalk.tla rendered as a /Kids tree and a "
          "/Prev chain and walked by every entry point incl. ResolveDeep; (3) Faults.tla: every (format, fault kind, site selector, "
-         "parameter) single fault over 10 base documents (4 PDF layouts: classic table / xref+object streams / PNG-predicted streams incl. predicted xref streams / TIFF-predicted streams; DOCX, ODT, XLSX, PPTX, EPUB, HTML), every numeric field x 4 extreme values - including the fields inside encoded streams: every number of every object-stream header and every field of every cross-reference-stream row, rebuilt by the writer - and every reference x 3 retargets at every site; thorough adds "
+         "parameter) single fault over 10 base documents (4 PDF layouts: classic table / xref+object streams / PNG-predicted streams incl. predicted xref streams / TIFF-predicted streams; DOCX, ODT, XLSX, PPTX, EPUB, HTML), every numeric field x 4 extreme values - rewritten in the finished file ('number') and replaced before the file is laid out so that all offsets and lengths stay consistent ('field') - including the fields inside encoded streams: every number of every object-stream header and every field of every cross-reference-stream row, rebuilt by the writer - and every reference x 3 retargets at every site; thorough adds "
          "truncation at every token boundary and -simulate double faults; each damaged input goes through 11-13 public entry "
          "points inside watched child processes. ParserLoop / GraphWalk are checked for Termination under weak fairness, their "
          "pinned variants refuted. Recorded Call events validated by FaultsTrace.tla. Non-trivial = input actually damaged.",
@@ -40,7 +40,7 @@ def run(ctx):
         key = vlib.json.dumps(t)
         if key not in seen:
             seen.add(key)
-            cases.append({"toks": t["toks"]})
+            cases.append({"toks": t["toks"], "bad": t.get("bad", "gt")})
     for g in graphs:
         cases.append({"graph": g["graph"]})
     for sp in ("lenstm", "len2cycle"):       # cycles that run through stream /Length entries
@@ -51,6 +51,10 @@ def run(ctx):
     for fmt in ("pdf-classic", "pdf-stream", "pdf-png", "pdf-tiff", "docx", "odt", "xlsx", "pptx", "epub", "html"):
         for val in ("0", "-1", "2147483648", "9223372036854775807"):
             cases.append({"fmt": fmt, "faults": [{"kind": "number", "site": 0, "param": val}], "all": True})
+    # ... the same fields replaced before the file is laid out (offsets and lengths stay consistent with the bytes)
+    for fmt in ("pdf-classic", "pdf-stream", "pdf-png", "pdf-tiff"):
+        for val in ("0", "-1", "2147483648", "9223372036854775807"):
+            cases.append({"fmt": fmt, "faults": [{"kind": "field", "site": 0, "param": val}], "all": True})
     # ... and the numeric fields inside encoded streams: object-stream headers, cross-reference-stream rows
     for fmt in ("pdf-stream", "pdf-png"):
         for val in ("0", "-1", "2147483648", "9223372036854775807"):
